@@ -2,6 +2,7 @@
 import HaqqModel.Model.Vesting
 
 namespace Haqq.Vest
+open Haqq.Sched
 
 /-- the SDK bank guard on every account debit (`subUnlockedCoins`): spendable = balance − locked must
     cover the amount -/
@@ -10,5 +11,11 @@ def bankDebit (bal locked amt : Nat) : Option Nat :=
 
 /-- the Haqq staking wrapper's guard on every delegation: balance − unvested must cover the amount -/
 def delegateGuard (bal unvested amt : Nat) : Bool := decide (amt ≤ bal - unvested)
+
+/-- MsgConvertVestingAccount (back to a plain account, which forgets the schedules): accepted only when nothing is
+    unvested (`GetVestingCoins` is zero) and nothing is locked up (`HasLockedCoins` is false), in every denomination in
+    use — wherever the coins are at the moment -/
+def unconvertGuard (M : Nat) (a : Account) (t : Int) : Bool :=
+  Amt.isZero M (a.unvested t) && Amt.isZero M (a.lockedUp t)
 
 end Haqq.Vest
